@@ -320,6 +320,85 @@ def c05 (m : DeathMon) (op : Op) (o : OpObs) : Bool × DeathMon :=
       (ok, { m with regs := regs })
     else ((deathOf o.res).isNone, m)
 
+/-! ### C08 -/
+
+/-- ASCII projection: bytes below 0x80 decode to themselves whatever the fragmentation, and
+    every other byte decodes to a character ≥ 0x80, so these projections commute with
+    `decodeReplace` for every way of cutting the data into fragments. -/
+def asciiB (b : Bytes) : List Char := (b.filter (· < 128)).map fun x => Char.ofNat x.toNat
+def asciiT (t : List Char) : List Char := t.filter (·.toNat < 128)
+def isAscii (b : Bytes) : Bool := b.all (· < 128)
+
+/-- one open attachment as the monitor sees it -/
+structure Att where
+  id : Nat
+  showPrompt : Bool
+  prompt : Option Pat          -- channel prompt at the time of attaching
+  steady : Bool := true        -- the prompt has not changed and no other mode was in force
+  r : Bytes := []              -- data read since attaching
+  fw : List Char := []         -- text forwarded since attaching
+  deriving Repr, Inhabited
+
+structure StreamMon where
+  atts : List Att := []        -- innermost first
+  deriving Repr, Inhabited
+
+def fwdFor (id : Nat) (fwd : List (Nat × List Char)) : List (List Char) :=
+  (fwd.filter (·.1 == id)).map (·.2)
+
+/-- the laws for one attachment after an operation -/
+def attOk (a : Att) : Bool :=
+  -- (1) forwarded is a prefix of what was read
+  (asciiT a.fw).isPrefixOf (asciiB a.r)
+  && (if !a.steady then true
+      else if a.showPrompt then asciiT a.fw == asciiB a.r          -- (2) everything, suppression off
+      else match a.prompt with
+        | none => asciiT a.fw == asciiB a.r
+        | some (.lit p) =>
+          -- (3) exactly the longest suffix that is a prefix of the prompt is held back
+          !isAscii a.r || !isAscii p ||
+            (asciiT a.fw).length + Chan.overlap p a.r (min p.length a.r.length) == a.r.length
+        | some (.re _) => true)
+
+/-- at detach: a read that ended at the prompt leaves exactly the output in the stream -/
+def detachOk (a : Att) : Bool :=
+  if !a.steady || a.showPrompt || !isAscii a.r then true else
+  match a.prompt with
+  | none => true
+  | some p =>
+    match Chan.promptEnd (match p with | .lit b => .lit b | .re r => .re r) a.r with
+    | some n => asciiT a.fw == asciiB (a.r.take n)
+    | none => true
+
+def c08 (m : StreamMon) (cfg : Cfg) (op : Op) (o : OpObs) : Bool × StreamMon :=
+  -- (4) nothing reaches a stream that is not attached
+  let attached := o.fwd.all fun f => m.atts.any (·.id == f.1)
+  -- (5) all attached streams receive the same fragments
+  let same := match m.atts with
+    | [] => true
+    | a :: rest => rest.all fun b => fwdFor b.id o.fwd == fwdFor a.id o.fwd
+  let data := (delivered o).flatten
+  let mode := match m.atts with | [] => true | a :: _ => a.showPrompt
+  let prompt := match op with | .rup (some p) _ => some (Chan.anchor p) | _ => cfg.prompt
+  let atts := m.atts.map fun a =>
+    { a with r := a.r ++ data, fw := a.fw ++ (fwdFor a.id o.fwd).flatten,
+             steady := a.steady && (data.isEmpty || (a.showPrompt == mode && a.prompt == prompt)) }
+  let ok := attached && same && atts.all attOk
+  match op with
+  | .streamEnter id sp => (ok, { atts := { id := id, showPrompt := sp, prompt := cfg.prompt } :: atts })
+  | .streamExit =>
+    match atts with
+    | [] => (ok, { atts := [] })
+    | a :: rest => (ok && (a.prompt != cfg.prompt || detachOk a), { atts := rest })
+  | _ => (ok, { atts := atts })
+
+def foldOpsCM {σ} (f : σ → Cfg → Op → OpObs → Bool × σ) : σ → Cfg → List Op → List OpObs → Bool
+  | _, _, [], [] => true
+  | st, c, op :: ops, o :: os =>
+    let (ok, st') := f st c op o
+    ok && foldOpsCM f st' (c.step op) ops os
+  | _, _, _, _ => false
+
 def foldOpsM {σ} (f : σ → Op → OpObs → Bool × σ) : σ → List Op → List OpObs → Bool
   | _, [], [] => true
   | st, op :: ops, o :: os =>
@@ -344,6 +423,7 @@ def C03 (c : Case) (obs : List OpObs × Bytes) : Bool :=
   foldOps (fun cfg op o => c03 cfg op o && c03Sizes cfg op o) (initCfg c) c.ops obs.1 && conservation c obs
 def C04 (c : Case) (obs : List OpObs × Bytes) : Bool := foldOps (fun _ => c04) (initCfg c) c.ops obs.1
 def C05 (c : Case) (obs : List OpObs × Bytes) : Bool := foldOpsM c05 {} c.ops obs.1
+def C08 (c : Case) (obs : List OpObs × Bytes) : Bool := foldOpsCM c08 {} (initCfg c) c.ops obs.1
 def C06 (c : Case) (obs : List OpObs × Bytes) : Bool := foldOps c06 (initCfg c) c.ops obs.1
 
 end Spec
